@@ -376,7 +376,7 @@ InvCrashOK      == CrashOK(ViewAll, jr, Files)
 InvFaultContent == FaultContentOK(lastFault.cls, lastFault.before, lastFault.after)
 InvFaultJournal == FaultJournalOK(lastFault.cls, lastFault.j)
 InvStartup      == overJournal = 0
-InvJournalNames == JournalNamesOK(jr, Files, cur, IF ap.btail THEN Append(ap.bef, Torn) ELSE ap.bef)
+InvJournalNames == faults = 0 => JournalNamesOK(jr, Files, cur, IF ap.btail THEN Append(ap.bef, Torn) ELSE ap.bef)
 \* C05
 InvFilesValid   == (Quiet /\ Clean) => \A f \in Files : ValidSeq(View(f))
 InvIdsUnique    == (Quiet /\ Clean) => IdsUnique(ViewAll, Files)
